@@ -23,6 +23,15 @@ type WorkerSpec struct {
 	Minimise     bool     `json:"minimise"`
 	MinBudgetSec int      `json:"min_budget_sec"`
 	ReplayDir    string   `json:"replay_dir"`
+	// MinCandidates bounds minimisation by a number of candidate executions, so that
+	// the minimised trace does not depend on the load of the machine.
+	MinCandidates int `json:"min_candidates"`
+	// TraceOut: every step is appended to this file BEFORE it is executed (used by the
+	// driver to recover the trace of a run that killed the process).
+	TraceOut string `json:"trace_out"`
+	// VerifyReplay: every generated run is executed a second time from its recorded
+	// trace alone (no generator, no PRNG for the steps); the event logs must be equal.
+	VerifyReplay bool `json:"verify_replay"`
 }
 
 func mix(base uint64, i int) uint64 {
@@ -59,8 +68,25 @@ func TestWorker(t *testing.T) {
 	defer bw.Flush()
 	enc := json.NewEncoder(bw)
 
+	if spec.TraceOut != "" {
+		tf, err := os.Create(spec.TraceOut)
+		if err != nil {
+			t.Fatal(err)
+		}
+		defer tf.Close()
+		tenc := json.NewEncoder(tf)
+		StepSink = func(kind string, v any) {
+			_ = tenc.Encode(map[string]any{"kind": kind, "v": v})
+		}
+	}
 	if spec.Replay != "" {
 		rr := ReplayFile(t, spec.Replay, spec.KeepLog)
+		if rr.Violation != nil && spec.Minimise {
+			rr = MinimiseN(t, ProfileByName(rr.Profile), rr, spec.MinBudgetSec, spec.MinCandidates)
+			if spec.ReplayDir != "" {
+				rr.ReplayPath = WriteReplay(spec.ReplayDir, rr)
+			}
+		}
 		_ = enc.Encode(rr)
 		return
 	}
@@ -86,8 +112,24 @@ func TestWorker(t *testing.T) {
 		seed := mix(spec.SeedBase, i)
 		CurrentIndex = i
 		rr := RunOne(t, p, RunOpts{Seed: seed, KeepLog: spec.KeepLog})
-		if rr.Violation != nil && spec.Minimise {
-			rr = Minimise(t, p, rr, spec.MinBudgetSec)
+		if spec.VerifyReplay && rr.Infra == "" {
+			r2 := RunOne(t, p, RunOpts{Seed: seed, Config: rr.Config, Trace: rr.Trace, Replay: true, KeepLog: spec.KeepLog})
+			if r2.LogHash != rr.LogHash {
+				rr.Infra = "replay of the recorded trace gives a different event log: " + r2.LogHash + " vs " + rr.LogHash
+				if spec.KeepLog {
+					for k := 0; k < len(rr.LogLines) && k < len(r2.LogLines); k++ {
+						if rr.LogLines[k] != r2.LogLines[k] {
+							rr.Infra += "\n first differing line " + rr.LogLines[k] + "\n   vs " + r2.LogLines[k]
+							break
+						}
+					}
+				}
+			}
+		}
+		if rr.Violation != nil {
+			if spec.Minimise {
+				rr = MinimiseN(t, p, rr, spec.MinBudgetSec, spec.MinCandidates)
+			}
 			if spec.ReplayDir != "" {
 				rr.ReplayPath = WriteReplay(spec.ReplayDir, rr)
 			}
